@@ -1273,8 +1273,9 @@ void OPNMIDIplay::noteUpdate(size_t midCh,
         {
             OpnChannel::users_iterator d = m_chipChannels[c].find_user(my_loc);
 
-            // Don't bend a sustained note
-            if(d.is_end() || (d->value.sustained == OpnChannel::LocationData::Sustain_None))
+            // Don't bend a note that only the pedal keeps sounding
+            // (a key that is still down under the sostenuto pedal is bent)
+            if(d.is_end() || ((d->value.sustained & OpnChannel::LocationData::Sustain_Pedal) == 0))
             {
                 MIDIchannel &chan = m_midiChannels[midCh];
                 double midibend = chan.bend * chan.bendsense;
@@ -1375,11 +1376,15 @@ int64_t OPNMIDIplay::calculateChipChannelGoodness(size_t c, const MIDIchannel::N
         const OpnChannel::LocationData &jd = j->value;
 
         int64_t kon_ms = jd.kon_time_until_neglible_us / 1000;
-        s -= (jd.sustained == OpnChannel::LocationData::Sustain_None) ?
-            (4000000 + kon_ms) : (500000 + (kon_ms / 2));
 
         MIDIchannel::notes_iterator
         k = const_cast<MIDIchannel &>(m_midiChannels[jd.loc.MidCh]).find_activenote(jd.loc.note);
+
+        // A key that is still down keeps its full weight, also when the sostenuto
+        // pedal has already marked it; only a released, pedal-held note is cheap to take
+        bool keyDown = (jd.sustained == OpnChannel::LocationData::Sustain_None) ||
+                       (!k.is_end() && k->value.phys_find(static_cast<unsigned>(c)) != NULL);
+        s -= keyDown ? (4000000 + kon_ms) : (500000 + (kon_ms / 2));
 
         if(!k.is_end())
         {
